@@ -4,8 +4,23 @@
    one OCaml module per Coq module, names preserved.  Run with coqc from the
    directory that is to receive the .ml files. *)
 From Coq Require Extraction ExtrOcamlBasic.
-From RT Require Import Model.Segments.
+From RT Require Import Model.Segments Model.Bytes Model.Records Model.Heap Model.Merge Model.Overlay
+  Model.Refname Model.Result Model.Varint Model.KeyCodec Model.RecCodec Model.Block Model.Crc32
+  Model.Writer Model.Reader.
 Extraction Language OCaml.
 Separate Extraction
   Segments.suggest Segments.log2_go Segments.log2 Segments.sizes_to_segments
-  Segments.auto_compact Segments.sumN.
+  Segments.auto_compact Segments.sumN
+  Bytes.bytes_ltb Bytes.bytes_eqb Bytes.is_prefix Bytes.be64
+  Records.ref_key Records.log_key Records.ref_is_del Records.log_is_del Records.points_to Records.log_key_of
+  Merge.merged_scan Merge.merged_seek Merge.seek_list
+  Overlay.overlay Overlay.view
+  Refname.validate_addition Refname.validate_refname Refname.apply_tx Refname.conflict_free_b
+  Refname.add_checked Refname.addition_pinned Refname.addition_seq
+  Varint.put_varint Varint.get_varint
+  KeyCodec.encode_key KeyCodec.decode_key
+  RecCodec.rec_encode RecCodec.rec_decode RecCodec.rec_key
+  Block.bw_add Block.bw_finish Block.br_init Block.bi_next Block.br_seek
+  Crc32.crc32
+  Writer.write_table Writer.norm_log Writer.w_new Writer.w_add_ref Writer.w_add_log Writer.w_close Writer.set_limits
+  Reader.rd_open Reader.scan_refs Reader.scan_logs Reader.seek_ref Reader.seek_log Reader.refs_for.
